@@ -79,7 +79,8 @@ PROPS = {
         explanation="round-trip and totality theorems over all objects of the modelled shape",
     ),
     "C02": dict(
-        engines=[dict(name="rolloutsm", quick=1200, thorough=60000, shard=400, trivial_tags=["no-change", "status-not-written"])],
+        engines=[dict(name="rolloutsm", quick=1200, thorough=60000, shard=400, trivial_tags=["no-change", "status-not-written"]),
+                 dict(name="rolloutbg", quick=800, thorough=40000, shard=400, trivial_tags=["no-change", "status-not-written"])],
         rule="seeded generator of (Rollout spec: 1-6 canary steps with int/percent replicas and optional pause durations, paused, disabled, deleting, finalizer, rollback-in-batch "
              "annotation; persisted status: every phase, every Progressing reason, sub-status with every step state incl. unknown, step index, nextStepIndex incl. jumps and out-of-range "
              "values (0, negative, len+1, 99), stale/current/empty rollout hash, every finalising step, elapsed/fresh timestamps; CloneSet: missing, inconsistent generation, rolled back, "
@@ -96,7 +97,8 @@ PROPS = {
                  dict(name="brexec", quick=600, thorough=30000, shard=400, trivial_tags=["status-unchanged"]),
                  dict(name="labelpatch", quick=300, thorough=10000, shard=400, trivial_tags=["no-write"]),
                  dict(name="convert", quick=300, thorough=10000, shard=300, trivial_tags=[]),
-                 dict(name="validate", quick=1500, thorough=40000, shard=500, trivial_tags=[])],
+                 dict(name="validate", quick=1500, thorough=40000, shard=500, trivial_tags=[]),
+                 dict(name="rolloutbg", quick=1200, thorough=60000, shard=400, trivial_tags=["no-change", "status-not-written"])],
         rule="rolloutsm engine (see C02) with arbitrary nextStepIndex values; brexec, labelpatch, convert engines for the other crash surfaces; every reconcile/call runs under recover(). "
              "validate engine: generated v1beta1 Rollouts (workload kinds incl. unsupported, canary / blue-green / none / both, enableExtraWorkloadForCanary, 0-4 steps with number / "
              "percentage / malformed / absent replicas in pure and MIXED type plans incl. decreasing ones, traffic strings incl. 0%, 101%, non-percent, header matches, 0-2 traffic "
